@@ -235,6 +235,22 @@ prop("C19",
      residual="everything else in C19: which texts are recognised as numbers, the value of the digits, group separators, percent scaling, dates, the format chosen")
 
 
+prop("C30",
+     units=["styles"],
+     level="proof",
+     claim="the style table against the abstract view index |-> Style: the index get_style_index_or_create / create_new_style answers for a style reads back "
+           "(Styles::get_style) as exactly that style — alignment, number format text, fill, font, border, quote prefix — and no call changes what any existing index "
+           "reads back (keeps_views), so cells with different styles never come to share one and a style set on one cell cannot alter another; get_style_index only "
+           "reuses anonymous formats; the quote-prefix variants answer the same style with only that flag changed; Model::set_cell_style stores an index that reads back "
+           "as the style set; the representation invariant (component indices exist, custom number-format ids fresh and distinct) is preserved by every function under contract",
+     assumptions=["A-eq / A-clone: derived PartialEq / Clone of Font, Fill, Border, Alignment, Style decide / preserve value equality (opaque components)",
+                  "number_format.rs table functions (get_default_num_fmt_id, get_num_fmt, get_new_num_fmt_index) as specified in the unit (string tables; assumed stubs)",
+                  "tables hold fewer than 2^31 - 65536 entries (indices are i32)", "Worksheet::set_cell_style stores the index it is given (stub with a ghost map)",
+                  "R: `num_fmt.to_string()` on a &String read as `.clone()`; `String == &str` read as text equality (shim)"],
+     residual="named styles (cell_style_xfs / cell_styles, update_named_style), row/column/sheet styles by name, Cell::set_style (or-pattern with &mut binding is "
+              "outside Verus), the cell storage of the worksheet, what Font/Fill/Border contain, file round trips of styles (C24/C26)")
+
+
 def evidence(pid, tier, seed, results, scan_results, kani_results, violations, known_hits, undecided, wall):
     P = PROPS[pid]
     obligations = 0
